@@ -82,6 +82,8 @@ def w_parts(tier):
     for op in ("copy", "copy_shallow", "move", "copy_node"):  # depth-3 subtree: shallow vs deep copies differ
         for p, q in (("a", "b"), ("a/x", "b")):
             parts.append(Part(H, "W", {"n": 2, "u": "axp", "op": op, "p": p, "q": q}, 600, 60, ob, weight=2))
+    for p in ("a", "a/x", "b", "b/c"):  # a failing write (value None) leaves the tree unchanged
+        parts.append(Part(H, "W", {"n": 2, "u": "ax_k", "op": "setitem_none", "p": p}, 600, 60, ob, weight=2))
     for op in ("move", "copy"):  # source == destination (h5py: move is a no-op, copy is refused)
         for p in ("a", "a/x"):
             parts.append(Part(H, "W", {"n": 2, "u": "ax_k", "op": op, "p": p, "q": p}, 600, 60, ob, weight=2))
